@@ -69,6 +69,7 @@ func HarnessMetadata() {
 	if vrtBool("conf.contact") {
 		conf.ContactPerson = &ContactPerson{Company: vrtStr("contact.company"), GivenName: vrtStr("contact.givenName"), EmailAddress: vrtStr("contact.email")}
 	}
+	vrtIssuer = vrtStaticIssuer
 	issuer := vrtIssuer
 	switch vrtChoice("issuer.form", 3) {
 	case 1:
@@ -143,6 +144,7 @@ func HarnessMetadata() {
 		}
 		if vrtProp("C04") && ent.Signature != nil {
 			vrtCover("C04.signed-metadata")
+			vrtFinding("C04.xmlsig-digests-text-unescaped", vrtC14NSensitive(ent))
 			vrtAssert("C04.metadata-signature-verifies-on-the-wire", vrtEnvelopedValid(ent, ent.Signature, string(st.metaCert)))
 		}
 		if vrtProp("C11") {
